@@ -403,7 +403,7 @@ func runCanaries(c *vlib.Ctx) string {
 	os.MkdirAll(dir, 0o755)
 	lines := filepath.Join(dir, "none.lines")
 	os.WriteFile(lines, []byte("BLOBS []\nFIXED {}\nTAILS []\nJSONCAT []\nTEXTCAT []\nCLASSES []\n"), 0o644)
-	j := job{Kind: "canary", Lines: lines, Out: filepath.Join(dir, "canary.out"), Progress: filepath.Join(dir, "canary.progress"), DeadlineMs: 300}
+	j := job{Kind: "canary", Lines: lines, Out: filepath.Join(dir, "canary.out"), Progress: filepath.Join(dir, "canary.progress"), DeadlineMs: 1500}
 	jb, _ := json.Marshal(j)
 	jf := filepath.Join(dir, "canary.job")
 	os.WriteFile(jf, jb, 0o644)
